@@ -1123,6 +1123,10 @@ enum Fill {
     Zero,
     One,
     Rand,
+    /// BC7 endpoints only: every channel holds one random value in all of its endpoint fields (both endpoints of
+    /// every subset are the same colour — the blocks an encoder emits for flat areas, and the ones "solid block"
+    /// shortcuts in a decoder would take)
+    Solid,
 }
 fn rand128(rng: &mut Rng) -> u128 {
     ((rng.next() as u128) << 64) | rng.next() as u128
@@ -1132,7 +1136,7 @@ fn fill_bits(f: Fill, n: u32, rng: &mut Rng) -> u128 {
     match f {
         Fill::Zero => 0,
         Fill::One => mask,
-        Fill::Rand => rand128(rng) & mask,
+        Fill::Rand | Fill::Solid => rand128(rng) & mask,
     }
 }
 
@@ -1147,8 +1151,19 @@ fn bc7_build(mode: usize, sel: u32, pbits: u32, epf: Fill, ixf: Fill, rng: &mut 
     w.put((sel >> 2) as u128, m.isb);
     let ne = m.ns * 2;
     let epbits = ne * m.cb * 3 + ne * m.ab;
-    let v = fill_bits(epf, epbits, rng);
-    w.put(v, epbits);
+    if let Fill::Solid = epf {
+        for (chans, bits) in [(3, m.cb), (1, m.ab)] {
+            for _ in 0..chans {
+                let val = rng.next() as u128 & ((1u128 << bits) - 1);
+                for _ in 0..ne {
+                    w.put(val, bits);
+                }
+            }
+        }
+    } else {
+        let v = fill_bits(epf, epbits, rng);
+        w.put(v, epbits);
+    }
     let npb = ne * m.epb + m.ns * m.spb;
     w.put(pbits as u128, npb);
     let rest = 128 - w.pos;
@@ -1305,6 +1320,10 @@ pub fn gen(seed: u64, thorough: bool) -> Vec<String> {
             for pb in 0..(1u32 << npb) {
                 for &(e, i) in &fixed7 {
                     blocks.push(bc7_build(mode, sel, pb, e, i, &mut rng));
+                }
+                // flat-colour blocks: equal endpoints in every channel, for every partition / rotation / selector / p-bits
+                for i in [Fill::Rand, Fill::Zero, Fill::One] {
+                    blocks.push(bc7_build(mode, sel, pb, Fill::Solid, i, &mut rng));
                 }
                 for r in 0..nrand {
                     // a few with one side pinned
